@@ -716,7 +716,19 @@ class Gen:
                 self.bad(f"conditional first assignment of {n}")
             self.emit(f"let v_{n} : K := if {self.cond(c)} then {val} else v_{n}")
             return
-        self.bad("if body is neither a throw/return, a single assignment nor a guard block")
+        # a block of plain assignments: evaluate the condition once, then assign in order
+        if th[0] == "block" and th[1] and all(
+                st[0] == "expr" and st[1][0] == "assign" and st[1][2][0] == "var" and st[1][2][1] in self.vars
+                and st[1][3][0] != "assign" for st in th[1]):
+            b = self.fresh("b")
+            self.emit(f"let {b} : Bool := {self.cond(c)}")
+            for st in th[1]:
+                n, val = self.pure_assign_value(st)
+                if not self.vars[n]:
+                    self.bad(f"conditional first assignment of {n}")
+                self.emit(f"let v_{n} : K := if {b} then {val} else v_{n}")
+            return
+        self.bad("if body is neither a throw/return, plain assignments nor a guard block")
 
     def final(self):
         if self.mode == "lin":
